@@ -210,6 +210,8 @@ def jobs(tier, seed):
             for op2 in ("xy", "eq_fresh", "add", "mul3"):
                 if tier == "quick" and op2 in ("mul3", "add") and op1 not in ("scale", "mul2_table", "state"):
                     continue
+                if tier == "quick" and (op1, op2) == ("mul2_table", "add"):
+                    continue        # ~15 min alone; thorough tier only
                 js.append(Job("step/p%d/%s/%s" % (p, op1, op2), "harness.c19:step", p=p, op1=op1, op2=op2))
     return js
 
